@@ -123,6 +123,10 @@ def oracle(ctx, kind, p):
             s = penman.format(penman.Tree(t), indent=rng.choice([None, -1, 0, 2]))
             if p['i'] % 3 == 2:
                 s = S.corrupt_text(rng, s)
+            if p['i'] % 5 == 0:
+                s = '\n'.join(S.comment_line(rng) for _ in range(rng.randrange(1, 3))) + '\n' + s
+            if p['i'] % 11 == 0:
+                s = rng.choice(S.UNI) + s
         ctx.current = ['str', {'s': s}]
         nt = _text.check_lexer(ctx, s, as_lines=True)
         ctx.case(s, nt >= 2)
